@@ -668,6 +668,8 @@ func rulePipePublish(c *Ctx, r *R) {
 	nx := c.fn("stream.pipeStream.Next")
 	if nx != nil {
 		okEnd := false
+		allEndsGuarded := true
+		badEnd := nx.Pos()
 		endFns := []*ssa.Function{nx}
 		for _, op := range chanOpsOf(nx) {
 			for _, a := range op.arms {
@@ -683,15 +685,24 @@ func rulePipePublish(c *Ctx, r *R) {
 					continue
 				}
 				if strings.HasSuffix(path(ret.Results[len(ret.Results)-1]), "End") {
+					under := false
 					for _, g := range guardsOf(d.in.Block()) {
 						if cf, ok := g.asCmp(); ok && cf.op == token.EQL && isNilConst(cf.y) && strings.HasSuffix(path(argOf(cf.x, d.calls)), ".senderErr") {
 							okEnd = true
+							under = true
 						}
+					}
+					if !under {
+						// an End that does not come from "the sender closed cleanly" (a cached 'drained' flag, …): a close
+						// error would be reported once and then turn into a clean end
+						allEndsGuarded = false
+						badEnd = retPos(ret)
 					}
 				}
 			}
 		}
 		r.ok(okEnd, "stream.pipeStream.Next|end-iff-nil", nx.Pos(), "End must be reported exactly on the path where the sender's close error is nil")
+		r.ok(allEndsGuarded, "stream.pipeStream.Next|end-only-if-nil", badEnd, "every End the receiver reports must be decided by reading the sender's close error (nil) on that very path: an End from remembered state makes a close error non-sticky")
 	}
 }
 
